@@ -2,6 +2,7 @@ package mon
 
 import (
 	"fmt"
+	"math"
 	"reflect"
 	"sort"
 	"strings"
@@ -39,11 +40,23 @@ func splitWildNames(s string, names []string) []map[int]bool {
 	return out
 }
 
+// c29Boundary: per parameter type, boundary values that every third draw uses instead of a pooled one.
+var c29Boundary = map[reflect.Type][]reflect.Value{}
+
+// c29Pick draws argument idx of the candidates vs for parameter type t.
+func c29Pick(t reflect.Type, vs []reflect.Value, idx int) reflect.Value {
+	if b := c29Boundary[t]; len(b) > 0 && idx%3 == 0 {
+		return b[(idx/3)%len(b)]
+	}
+	return vs[idx%len(vs)]
+}
+
 var pathStructT = reflect.TypeOf((*ygot.PathStruct)(nil)).Elem()
 
 // keyValuePool collects, per Go type, example key values from generated trees
 // (typed exactly as the generated helpers and path-struct accessors take them).
 func keyValuePool(cfg *lib.Cfg, seed int64, n int) map[reflect.Type][]reflect.Value {
+	c29Boundary = map[reflect.Type][]reflect.Value{}
 	pool := map[reflect.Type][]reflect.Value{}
 	seen := map[string]bool{}
 	add := func(v reflect.Value) {
@@ -62,6 +75,38 @@ func keyValuePool(cfg *lib.Cfg, seed int64, n int) map[reflect.Type][]reflect.Va
 					add(p)
 				}
 			}
+		}
+	}
+	// boundary values of the 64-bit integer key types (a key rendered through a signed
+	// conversion only goes wrong from 2^63 up)
+	for t, vs := range pool {
+		if len(vs) == 0 {
+			continue
+		}
+		dyn := vs[0]
+		if t.Kind() == reflect.Interface {
+			dyn = dyn.Elem()
+		}
+		if !dyn.IsValid() || dyn.Type().Implements(goEnumType) {
+			continue
+		}
+		mk := func(set func(reflect.Value)) {
+			nv := reflect.New(dyn.Type()).Elem()
+			set(nv)
+			if t.Kind() == reflect.Interface {
+				iv := reflect.New(t).Elem()
+				iv.Set(nv)
+				nv = iv
+			}
+			c29Boundary[t] = append(c29Boundary[t], nv)
+		}
+		switch dyn.Kind() {
+		case reflect.Uint64:
+			mk(func(v reflect.Value) { v.SetUint(math.MaxUint64) })
+			mk(func(v reflect.Value) { v.SetUint(1 << 63) })
+		case reflect.Int64:
+			mk(func(v reflect.Value) { v.SetInt(math.MinInt64) })
+			mk(func(v reflect.Value) { v.SetInt(math.MaxInt64) })
 		}
 	}
 	return pool
@@ -110,6 +155,7 @@ func runC29(r *lib.Run) {
 		}
 		any = true
 		r.Hit("configuration")
+		r.Hit("configuration:" + name)
 		pool := keyValuePool(cfg, r.Seed, tuples)
 		root := reflect.ValueOf(cfg.PathRoot())
 		rootInfo := cfg.Info(reflect.TypeOf(cfg.NewRoot()))
@@ -151,7 +197,7 @@ func runC29(r *lib.Run) {
 						r.Hit("skipped:builder-method-without-key")
 						continue
 					}
-					arg := vs[(round+wi*5+mi)%len(vs)]
+					arg := c29Pick(m.Type.In(1), vs, round+wi*5+mi)
 					chain := f.chain + "." + m.Name
 					w := map[string]interface{}{"cfg": name, "chain": chain}
 					var out reflect.Value
@@ -228,7 +274,7 @@ func runC29(r *lib.Run) {
 						okArgs = false
 						break
 					}
-					args[a] = vs[(round+a*7+mi)%len(vs)]
+					args[a] = c29Pick(m.Type.In(a+1), vs, round+a*7+mi)
 				}
 				if !okArgs {
 					r.Hit("skipped:no-value-for-parameter-type")
@@ -305,6 +351,16 @@ func runC29(r *lib.Run) {
 				}
 				r.Case(name+chain+fmt.Sprint(argStrings(args)), hasList)
 				r.Hit("accessor:" + fi.Kind.String())
+				if len(args) > 0 {
+					for _, a := range args {
+						c, _ := lib.CanonScalar(a, true)
+						k := strings.SplitN(c, ":", 2)[0]
+						if (k == "uint64" || k == "int64") && len(c) >= len(k)+19 {
+							k += ":19-20-digits"
+						}
+						r.Hit("key-arg:" + k)
+					}
+				}
 				// resolve
 				ps, ok := out.Interface().(ygot.PathStruct)
 				if !ok || out.IsNil() {
@@ -384,7 +440,7 @@ func runC29(r *lib.Run) {
 	if !any {
 		r.Inconclusive("no configuration with path structs is linked")
 	}
-	r.RequireCov("configuration", "accessor:leaf", "accessor:list", "accessor:container", "resolved-ok", "resolved-ok:wildcard")
+	r.RequireCov("configuration", "configuration:vtoc/C-paths", "configuration:vtoc/C-paths-builder", "configuration:vtoc/C-paths-nowild", "configuration:vtoc/C-paths-simplify", "key-arg:uint64:19-20-digits", "accessor:leaf", "accessor:list", "accessor:container", "resolved-ok", "resolved-ok:wildcard")
 }
 
 func argStrings(args []reflect.Value) []string {
